@@ -1,5 +1,5 @@
 (* C09 -- no client can wedge the server or starve other clients. *)
-From MH Require Import proofs.Server_proofs.
+From MH Require Import proofs.Server_proofs proofs.RunInv_proofs.
 
 (* The world: HttpServer/ClientConnection mirrored over the connection model (model/Server.v),
    every function taking the results of its system calls from an explicit kernel model.
@@ -63,6 +63,28 @@ Theorem C09_flush_keeps_inv : forall BUF, (2 <= BUF)%nat -> N.of_nat BUF < U32_L
   forall w toks, Inv BUF w toks -> Inv BUF (flush w) toks.
 Proof. exact flush_inv. Qed.
 
+(* the invariant is not only preserved step by step: the executable interpreter of run/Run.v -- the very
+   function the correspondence run executes against the real server on real sockets -- never leaves it.
+   After ANY list of operations (connects, sends, closes, shutdowns in either direction, client reads,
+   polls, polls to quiescence, responses to any held token, flushes, kill, limit changes) the world
+   satisfies Inv with the tokens the interpreter holds, and the next poll can only block, yield, report
+   the shutdown or overflow a u32 counter: never a panic, InvalidWrite or Underflow *)
+Theorem C09_executed_histories_keep_inv : forall BUF, (2 <= BUF)%nat -> N.of_nat BUF < U32_LIMIT ->
+  forall ops id hk, Inv BUF (fst (run_srv_ops BUF id 0 hk world0 ops)) (ytoks (w_tokens (fst (run_srv_ops BUF id 0 hk world0 ops)))).
+Proof. exact executed_histories_keep_inv. Qed.
+Theorem C09_executed_histories_poll : forall BUF, (2 <= BUF)%nat -> N.of_nat BUF < U32_LIMIT ->
+  forall ops id hk,
+  let w := fst (run_srv_ops BUF id 0 hk world0 ops) in
+  match poll BUF w with
+  | PBlocked => ready_events w = []
+  | PYield w' ys => Inv BUF w' (ytoks ys ++ ytoks (w_tokens w)) /\ w_killed w = false
+  | Server.PErr e => (e = EShutdown /\ w_killed w = true) \/ e = EOverflow
+  end.
+Proof. exact executed_histories_poll. Qed.
+Theorem C09_interpreter_is_decoded : forall BUF id i hk w op,
+  run_srv_op BUF id i hk w op = run_sop BUF id i hk w (decode_sop op).
+Proof. exact run_srv_op_sop. Qed.
+
 Print Assumptions C09_poll_total.
 Print Assumptions C09_event_total.
 Print Assumptions C09_noninterference.
@@ -71,3 +93,6 @@ Print Assumptions C09_poll_outcomes.
 Print Assumptions C09_inv_initial.
 Print Assumptions C09_respond_keeps_inv.
 Print Assumptions C09_flush_keeps_inv.
+Print Assumptions C09_executed_histories_keep_inv.
+Print Assumptions C09_executed_histories_poll.
+Print Assumptions C09_interpreter_is_decoded.
